@@ -172,8 +172,10 @@ def _to_facade(op, s):
     else:
         return
     op["via"] = "api"
-    # column selection on a frame facade: none / gb[col] / gb[[cols]]
-    op["api_select"] = s.draw(3)
+    # column selection on a frame facade: none / gb[col] / gb[[all cols]] / gb[[all but the last]] /
+    # gb[[all but the first]] (proper subsets: what the parent facade computed or cached for ALL its
+    # columns must not come back through a selection; seeded change C13-k)
+    op["api_select"] = s.weighted([(2, 0), (2, 1), (1, 2), (2, 3), (1, 4)])
 
 
 def op_mask(op):
@@ -250,7 +252,13 @@ def _call_facade(w, op, mask, ds, times, wrappers=None):
     w0 = w
     if isinstance(w, DataFrameGroupBy) and op.get("api_select"):
         cols = list(w.value_columns)
-        w = w[cols[0]] if op["api_select"] == 1 else w[cols]
+        sel = op["api_select"]
+        if sel == 1:
+            w = w[cols[0]]
+        elif sel == 2 or len(cols) < 2:
+            w = w[cols]
+        else:
+            w = w[cols[:-1]] if sel == 3 else w[cols[1:]]
     if name == "size":
         return w.size(mask=mask)
     if name in ("sum", "mean", "min", "max"):
